@@ -437,4 +437,36 @@ theorem unique_covers (xs : List Value) (x : Value) (hx : x ∈ xs) : ∃ y ∈ 
   · simp at h
   · exact h
 
+/-! ### unique is idempotent (session 4) -/
+
+/-- a list with pairwise different elements, none of them equal to a kept value, passes through. -/
+theorem uniqueGo_fix : (out seen : List Value) → distinct out = true →
+    (∀ y ∈ out, seen.any (veq y) = false) → uniqueGo seen out = out
+  | [], _, _, _ => rfl
+  | x :: xs, seen, hd, hf => by
+    simp only [distinct, Bool.and_eq_true, Bool.not_eq_true'] at hd
+    have hx : seen.any (veq x) = false := hf x (by simp)
+    simp only [uniqueGo, hx, Bool.false_eq_true, if_false]
+    congr 1
+    apply uniqueGo_fix xs (x :: seen) hd.2
+    intro y hy
+    have h1 := hf y (List.mem_cons_of_mem _ hy)
+    have h2 : veq y x = false := by
+      have := hd.1
+      rw [← Bool.not_eq_true, List.any_eq_true] at this
+      rw [← Bool.not_eq_true]
+      intro h
+      exact this ⟨y, hy, by rw [veq_symm]; exact h⟩
+    simp [List.any_cons, h1, h2]
+
+/-- `unique` is idempotent: a second application changes nothing. -/
+theorem unique_idempotent (xs : List Value) : uniqueL (uniqueL xs) = uniqueL xs :=
+  uniqueGo_fix _ [] (unique_nodup xs) (by intro y _; rfl)
+
+/-- … at the level of the stdlib function: `unique(unique(a)) == unique(a)` for every array. -/
+theorem unique_unique (xs : VList) :
+    ∃ out, unique (.arr xs) = .ok (.arr out) ∧ unique (.arr out) = .ok (.arr out) := by
+  refine ⟨_, rfl, ?_⟩
+  simp only [unique, toList_ofList, unique_idempotent]
+
 end C28
